@@ -28,7 +28,7 @@ m = {
     'setup_cmd': './setup.sh',
     'hooks': {
         'guard': 'none',
-        'enable': 'no hooks in /repo: contracts are attached to a verbatim extraction (Verus) and to a byte-for-byte staged copy of /repo/src with one appended `#[cfg(kani)] mod verif_contracts;` line per file (Kani); nothing to enable',
+        'enable': 'no hooks in /repo: contracts are attached to a verbatim extraction (Verus) and to a byte-for-byte staged copy of /repo/src with one appended `#[cfg(kani)] #[path=..] pub(crate) mod verif_contracts;` line per file (Kani); nothing to enable',
         'baseline_off_cmd': 'cd /repo && cargo test --workspace --no-fail-fast --offline',
         'source_commits': [],
         'add_only': True,
